@@ -189,13 +189,15 @@ static carquet_status_t encode_levels(
         (uint8_t)((rle_size >> 16) & 0xFF),
         (uint8_t)((rle_size >> 24) & 0xFF)
     };
-    carquet_buffer_append(output, len_bytes, 4);
+    status = carquet_buffer_append(output, len_bytes, 4);
 
     /* Append the RLE-encoded data */
-    carquet_buffer_append(output, rle_buffer.data, rle_buffer.size);
+    if (status == CARQUET_OK) {
+        status = carquet_buffer_append(output, rle_buffer.data, rle_buffer.size);
+    }
     carquet_buffer_destroy(&rle_buffer);
 
-    return CARQUET_OK;
+    return status;
 }
 
 /* ============================================================================
@@ -311,14 +313,20 @@ carquet_status_t carquet_page_writer_add_values(
 
     /* Encode definition levels */
     if (writer->max_def_level > 0 && def_levels) {
-        encode_levels(def_levels, num_values, writer->max_def_level,
-                      &writer->def_levels_buffer);
+        carquet_status_t lstatus = encode_levels(def_levels, num_values, writer->max_def_level,
+                                                 &writer->def_levels_buffer);
+        if (lstatus != CARQUET_OK) {
+            return lstatus;
+        }
     }
 
     /* Encode repetition levels */
     if (writer->max_rep_level > 0 && rep_levels) {
-        encode_levels(rep_levels, num_values, writer->max_rep_level,
-                      &writer->rep_levels_buffer);
+        carquet_status_t lstatus = encode_levels(rep_levels, num_values, writer->max_rep_level,
+                                                 &writer->rep_levels_buffer);
+        if (lstatus != CARQUET_OK) {
+            return lstatus;
+        }
     }
 
     /* Encode values using PLAIN encoding.
@@ -487,21 +495,30 @@ carquet_status_t carquet_page_writer_finalize(
     carquet_buffer_t uncompressed;
     carquet_buffer_init(&uncompressed);
 
+    carquet_status_t status = CARQUET_OK;
+
     if (writer->rep_levels_buffer.size > 0) {
-        carquet_buffer_append(&uncompressed,
-                               writer->rep_levels_buffer.data,
-                               writer->rep_levels_buffer.size);
+        status = carquet_buffer_append(&uncompressed,
+                                        writer->rep_levels_buffer.data,
+                                        writer->rep_levels_buffer.size);
     }
 
-    if (writer->def_levels_buffer.size > 0) {
-        carquet_buffer_append(&uncompressed,
-                               writer->def_levels_buffer.data,
-                               writer->def_levels_buffer.size);
+    if (status == CARQUET_OK && writer->def_levels_buffer.size > 0) {
+        status = carquet_buffer_append(&uncompressed,
+                                        writer->def_levels_buffer.data,
+                                        writer->def_levels_buffer.size);
     }
 
-    carquet_buffer_append(&uncompressed,
-                           writer->values_buffer.data,
-                           writer->values_buffer.size);
+    if (status == CARQUET_OK) {
+        status = carquet_buffer_append(&uncompressed,
+                                        writer->values_buffer.data,
+                                        writer->values_buffer.size);
+    }
+
+    if (status != CARQUET_OK) {
+        carquet_buffer_destroy(&uncompressed);
+        return status;
+    }
 
     *uncompressed_size = (int32_t)uncompressed.size;
 
@@ -509,7 +526,7 @@ carquet_status_t carquet_page_writer_finalize(
     carquet_buffer_t compressed;
     carquet_buffer_init(&compressed);
 
-    carquet_status_t status = compress_data(writer->compression,
+    status = compress_data(writer->compression,
                                              uncompressed.data,
                                              uncompressed.size,
                                              &compressed);
@@ -597,9 +614,16 @@ carquet_status_t carquet_page_writer_finalize(
     thrift_write_struct_end(&enc);  /* End DataPageHeader */
     thrift_write_struct_end(&enc);  /* End PageHeader */
 
-    /* Append compressed data after header */
-    carquet_buffer_append(&writer->page_buffer, compressed.data, compressed.size);
+    /* Append compressed data after header (the encoder latches a failed header write) */
+    status = enc.status;
+    if (status == CARQUET_OK) {
+        status = carquet_buffer_append(&writer->page_buffer, compressed.data, compressed.size);
+    }
     carquet_buffer_destroy(&compressed);
+
+    if (status != CARQUET_OK) {
+        return status;
+    }
 
     *page_data = writer->page_buffer.data;
     *page_size = writer->page_buffer.size;
